@@ -393,7 +393,7 @@ Section Reflect.
       set (g := snd (robsd_clean sortf rootstr keep_conf count ka lock f)) in *.
       destruct HK as [Hkept [_ [_ Hincl]]].
       destruct HR as [Hgone [Hrest [Hnew [Hoff Hon]]]].
-      unfold spec_ok_clean. rewrite N.eqb_refl. cbn [andb].
+      unfold spec_ok_clean, spec_ok_clean_on. rewrite N.eqb_refl. cbn [andb].
       rewrite (c1 f g running (S k) Hkept), (c2 f g running (S k) Hkept Hincl),
               (c3 f g running (S k) Hwf Hgone), (c4 f g running (S k) Hwf Hrest), (c5 f g ka Hnew).
       cbn [andb]. destruct ka.
